@@ -423,7 +423,7 @@ pub fn rand_file(rng: &mut Rng, used: &mut Vec<String>, max_len: usize) -> FileC
         user: if rng.chance(1, 3) { Some(rng.pick(&["alice", "bob", "carol", "dave", "root", "eve"]).to_string()) } else { None },
         group: if rng.chance(1, 3) { Some(rng.pick(&["staff", "wheel", "adm", "root", "users"]).to_string()) } else { None },
         flags,
-        caps: if rng.chance(1, 6) { Some(rng.pick(&["cap_net_admin=ep", "cap_chown,cap_kill+p", "=e", "all=i cap_bpf-e"]).to_string()) } else { None },
+        caps: if rng.chance(1, 6) { Some(rng.pick(&["cap_net_admin=ep", "cap_chown,cap_kill+p", "=e", "all=i cap_bpf-e", "cap_net_raw,cap_net_admin=ep\n", "  =e cap_chown-e ", "CAP_Kill=p"]).to_string()) } else { None },
         link,
         mtime: *rng.pick(&[0u32, 1, 1_000_000_000, 1_599_999_999, 1_600_000_000, 1_600_000_001, 1_700_000_000, 2_000_000_000]),
     }
